@@ -152,48 +152,70 @@ def expm_model(M):
     if not skew_ok:
         raise Unmodelled("expm of a symbolic matrix that is not syntactically skew")
     ctx = Ctx.cur
-    # find the angle generator: every monomial of every non-zero entry must contain exactly theta^1
-    cand = None
-    for g in ctx.angles:
-        ok = True
-        for v in w:
-            for m in v.p:
-                if dict(m).get(g, 0) != 1:
-                    ok = False
-        if ok and any(v.p for v in w):
-            cand = g
-            break
-    if cand is None:
-        # concrete angle with a symbolic axis: |w| must be concrete
+    # w = a * P with a concrete 3-vector and one common (Laurent) polynomial P: the angle is |a| * P about a/|a|
+    nz = [v for v in w if v.p]
+    if not nz:
+        return core.lift_arr(np.eye(3))
+
+    def lead(v):
+        m = max(v.p, key=lambda mm: (sum(abs(e) for _, e in mm), mm))
+        return v.p[m]
+    ref = nz[0]
+    lr = lead(ref)
+    prop = all(not (v * R(lr) - ref * R(lead(v))).p for v in nz)
+    if not prop:
+        # symbolic axis: only a constant rotation angle is supported
         ww = w[0] * w[0] + w[1] * w[1] + w[2] * w[2]
         c = ww.concrete()
         if c is None:
             c = _prove_constant(ww)
         if c is None:
-            raise Unmodelled("expm: rotation angle is symbolic and not a registered angle")
+            raise Unmodelled("expm: rotation about a symbolic axis by a symbolic angle")
         phi = math.sqrt(float(c))
         if phi == 0:
             return core.lift_arr(np.eye(3))
         u = [v / R(phi) for v in w]
         cs, sn = R(math.cos(phi)), R(math.sin(phi))
     else:
-        theta = R.gen(cand)
-        u = [R({tuple(x for x in m if x[0] != cand): c for m, c in v.p.items()}) for v in w]
-        uu = u[0] * u[0] + u[1] * u[1] + u[2] * u[2]
-        c = uu.concrete()
-        if c is None:
-            c = _prove_constant(uu)
-        if c is None:
-            raise Unmodelled("expm: axis times angle with a non-constant axis length")
-        info = ctx.angles[cand]
-        coef = math.sqrt(float(c)) * info.m        # the rotation angle is coef * (theta/m)
-        k = round(coef)
-        if abs(coef - k) > 1e-9 or k == 0:
-            raise Unmodelled("expm: unsupported multiple of a pinned angle")
-        rt = R(c).sqrt()
-        u = [v / rt for v in u]
-        cs, sn = info.cos_sin_multiple(k)
-        cs, sn = R.lift(cs), R.lift(sn)
+        a = [lead(v) if v.p else core.Fraction(0) for v in w]
+        P = ref * R(1 / lr)
+        a2 = a[0] * a[0] + a[1] * a[1] + a[2] * a[2]
+        na = R(a2).sqrt()                      # |a| (exact if rational, else within 1e-40)
+        nac = na.concrete()
+        u = [R(x) / na for x in a]
+        ang = P * na
+        pc_ = ang.concrete()
+        if pc_ is not None:
+            cs, sn = R(math.cos(float(pc_))), R(math.sin(float(pc_)))
+        else:
+            am = ang._angle_multiple()
+            if am is None and len(P.p) == 1:
+                # snap c*theta to an integer multiple of the pinned base angle (float axes are unit only to 1e-16)
+                (m_, c_), = ang.p.items()
+                info = ctx.angles.get(m_[0][0]) if len(m_) == 1 and m_[0][1] == 1 else None
+                if info is not None:
+                    k = c_ * info.m
+                    kr = round(k)
+                    if abs(float(k) - kr) < 1e-9 and kr != 0:
+                        am = (info, kr)
+            if am is not None:
+                cs, sn = am[0].cos_sin_multiple(am[1])
+                cs, sn = R.lift(cs), R.lift(sn)
+            else:
+                # |w| may still be a constant (e.g. axis/|axis| * 0.785 with a symbolic axis length): then rotate about
+                # the (symbolic) unit vector w/|w| by that constant angle
+                ww = w[0] * w[0] + w[1] * w[1] + w[2] * w[2]
+                c2 = ww.concrete()
+                if c2 is None:
+                    c2 = _prove_constant(ww)
+                if c2 is not None:
+                    phi = math.sqrt(float(c2))
+                    if phi == 0:
+                        return core.lift_arr(np.eye(3))
+                    u = [v / R(phi) for v in w]
+                    cs, sn = R(math.cos(phi)), R(math.sin(phi))
+                else:
+                    cs, sn = ang.cos(), ang.sin()
     K = [[R(0), -u[2], u[1]], [u[2], R(0), -u[0]], [-u[1], u[0], R(0)]]
     out = np.empty((3, 3), dtype=object)
     for i in range(3):
